@@ -300,3 +300,40 @@ def parity_self_example() -> bool:
         for ch in ast.iter_child_nodes(node):
             ch._parent = node  # type: ignore[attr-defined]
     return any(k == I for _, k in parity_sites(fn))
+
+
+
+_GLOBAL_POSITIVE = """
+def f(mask, out):
+    if not mask.any():
+        return
+    out += 1
+"""
+
+
+def global_exit_sites(fn: ast.AST):
+    """`if <whole-array aggregate>: return / continue-free early exit` -- the treatment of every pixel then depends on
+    pixels arbitrarily far away (outside any dependency cone)."""
+    out = []
+    for n in walk_no_nested(fn):
+        if isinstance(n, ast.If) and any(isinstance(x, ast.Return) for x in n.body + n.orelse):
+            agg = [c for c in ast.walk(n.test) if isinstance(c, ast.Call) and ((isinstance(c.func, ast.Attribute) and c.func.attr in ("any", "all") and not c.args) or (dotted(c.func) or "") in ("np.any", "np.all", "np.count_nonzero", "np.sum", "np.nansum", "np.max", "np.nanmax", "np.min", "np.nanmin"))]
+            if agg:
+                out.append((n, agg[0]))
+    return out
+
+
+def check_global_exits(ctx: Ctx, rid: str, rel: str, qual: str) -> int:
+    fn = ctx.tree.func(rel, qual)
+    sites = global_exit_sites(fn)
+    for node, agg in sites:
+        ctx.ob(rid, rel, node, f"{qual}: early exit decided by a whole-array aggregate `{canon(agg)[:70]}`", False, expected="per-pixel treatment that does not branch on a property of the whole image", detail="the flags / values of a pixel then depend on whether some pixel anywhere in the image (outside its dependency cone) has a property: a crop without that pixel gives other results")
+    return len(sites)
+
+
+def global_exit_self_example() -> bool:
+    fn = ast.parse(_GLOBAL_POSITIVE).body[0]
+    for node in ast.walk(fn):
+        for ch in ast.iter_child_nodes(node):
+            ch._parent = node  # type: ignore[attr-defined]
+    return len(global_exit_sites(fn)) == 1
